@@ -156,6 +156,20 @@ def stepLine (line : String) : String :=
       let r := if kind == "s" then Brent.brentsroot f lo hi tol eps (1.0 / 0.0) else Brent.lane f lo hi tol eps
       s!"{showFloatBits r.root} {r.success} {r.iters} {showList showFloatBits r.trace}"
     | _, _, _, _ => bad
+  -- counters c1,c0,ju1,jf9:1,r : the counter model
+  | ["counters", ops] =>
+    let parse (t : String) : Option Counters.Op :=
+      if t == "r" then some .reset
+      else if t == "c1" then some (.call true) else if t == "c0" then some (.call false)
+      else if t == "ju1" then some (.jacUser true) else if t == "ju0" then some (.jacUser false)
+      else if t.startsWith "jf" then
+        match ((t.drop 2).toString.splitOn ":") with
+        | [n, ok] => n.toNat?.map (fun n => .jacFD n (ok == "1"))
+        | _ => none
+      else none
+    match (ops.splitOn ",").mapM parse with
+    | some l => let r := Counters.run {} l; s!"{r.nfev} {r.njev}"
+    | none => bad
   | "loopf" :: eps :: tolEps :: "|" :: rest =>
     match parseFloatBits? eps, parseFloatBits? tolEps with
     | some eps, some tolEps => runScenario eps tolEps ((" ".intercalate rest).splitOn "|")
